@@ -431,3 +431,13 @@ Example C17_ex_nofeat_ignored :
   ex_out (shape_morx_feat ex_feat_font None [uf 1936548720 1 0 U32MAX; uf 1818847073 0 0 U32MAX] LTR 0 (ex_text [1; 2]))
   = [(5, 0); (2, 1)].
 Proof. vm_compute. reflexivity. Qed.
+
+(* the component stack is a ring of LIGATURE_MAX_MATCHES = 64 positions: 130 unanswered pushes of
+   glyph 1 (match_length crosses 64 and 128), then 2 completes the pair with the LAST 1 only *)
+Example C17_ex_ligature_deep_stack :
+  map fst (ex_out (shape_morx (ex_font (ex_chain (MLigature
+            (mkStateTable 6 (mkAatLookup 6 [(1, 4); (2, 5)] None) (ex_states 1 2)
+               [mkLigE 0 0 0; mkLigE 2 0x8000 0; mkLigE 0 0xA000 1])
+            [0; 0; 0xC0000002] [9; 9; 1; 2] [20; 21; 22; 8]) 0)) LTR 0 (ex_text (repeat 1 130 ++ [2; 3]))))
+  = repeat 1 129 ++ [8; 3].
+Proof. vm_compute. reflexivity. Qed.
